@@ -101,8 +101,12 @@ class Run:
 
         cls: optional class tag used to match known findings."""
         for f in self.kf.get("findings", []):
-            if f.get("property") == self.pid and cls is not None and f.get("class") == cls:
-                self.known_hits.append((f, case))
+            if cls is not None and f.get("class") == cls:
+                if f.get("property") == self.pid:
+                    self.known_hits.append((f, case))
+                else:
+                    # a recorded finding of another property, met while sharing that property's input stream
+                    self.dist("skipped:known_finding_of_%s" % f.get("property"))
                 return
         self.oracle_failures.append({"what": what, "case": case, "class": cls})
 
